@@ -22,6 +22,9 @@ pub struct PlogJob {
     /// start the real TCP server in every incarnation (catalogue changes then go through handlers)
     #[serde(default)]
     pub tcp: bool,
+    /// operations executed (and checked) before every history of the job: a non-initial starting state
+    #[serde(default)]
+    pub prelude: Vec<Op>,
 }
 
 pub struct StepCtx<'a> {
@@ -171,7 +174,8 @@ pub fn run_job(prop: &str, job: &PlogJob, factory: OracleFactory) -> JobResult {
     let mut count = 0u64;
     let mut seen_keys = std::collections::HashSet::new();
     'outer: loop {
-        let mut hist: Vec<Op> = job.prefix.iter().map(|&i| job.alphabet[i].clone()).collect();
+        let mut hist: Vec<Op> = job.prelude.clone();
+        hist.extend(job.prefix.iter().map(|&i| job.alphabet[i].clone()));
         hist.extend(idx.iter().map(|&i| job.alphabet[i].clone()));
         let mut oracle = factory(&job.oracle, &job.cfg);
         let want_sample = count % 997 == 1 || (count == 0 && free == 0);
@@ -262,6 +266,7 @@ pub fn make_jobs(
                 partitions: 2,
                 wall_cap_s,
                 tcp: false,
+                prelude: Vec::new(),
             });
             let mut k = split;
             let mut done = true;
